@@ -105,6 +105,9 @@ def ofRaw (r : RawEv) : Option (Option Ev) :=
   | "note", ["resumed"] => some (some (Ev.resumed r.fiber))
   | "note", ["fiber", "start", _] => some (some (Ev.resumed r.fiber))
   | "note", ["fiber", "end", _] => some (some (Ev.finish r.fiber))
+  -- a fiber about to park in a primitive leaves the run queues exactly like a finishing one
+  -- (not re-queued after the switch); the wake-up that brings it back is a `sched`
+  | "note", ["block"] => some (some (Ev.finish r.fiber))
   | "switch", [g] => g.toNat?.map (fun g => some (Ev.switch g))
   | _, _ => some none      -- everything else (state cells, create/destroy) is not this model's business
 
@@ -118,11 +121,14 @@ def ofRaw (r : RawEv) : Option (Option Ev) :=
 structure Mon where
   ready : List (Nat × Nat) := []     -- (fiber, bypass count)
   alive : Nat := 1
+  seen : List Nat := []               -- fibers ever handed to the scheduler (a wake-up is not a new fiber)
   cur : Nat := 0
   bad : Option String := none
 
 def monStep (m : Mon) : Ev → Mon
-  | .sched f => { m with ready := (f, 0) :: m.ready, alive := m.alive + 1 }
+  | .sched f =>
+    if m.seen.contains f then { m with ready := (f, 0) :: m.ready.filter (fun p => p.1 ≠ f) }
+    else { m with ready := (f, 0) :: m.ready, alive := m.alive + 1, seen := f :: m.seen }
   | .switch g =>
     let ready := (m.ready.filter (fun p => p.1 ≠ g)).map (fun p => (p.1, p.2 + 1))
     let m := { m with ready := ready, cur := g }
